@@ -121,6 +121,11 @@ def obligations(tier: str):
         for d in depths:
             add(f"full_{fxn}_d{d}", fixture=fxn, creator="full_initializer", max_depth=d)
             add(f"pigrow_{fxn}_d{d}", fixture=fxn, creator="pi", max_depth=d)
+    for d in (2, 3) + ((4,) if True else ()):
+        add(f"full_f12_d{d}", fixture="f12", creator="full_initializer", max_depth=d, timeout=300)
+    for d in (2, 3):
+        add(f"grow_f12_d{d}", fixture="f12", creator="grow", max_depth=d)
+        add(f"pigrow_f12_d{d}", fixture="f12", creator="pi", max_depth=d)
     add("pigrow_f3_d3", fixture="f3", creator="pi", max_depth=3)
     add("pigrow_f4_d3", fixture="f4", creator="pi", max_depth=3)
     return [o for o in obs if o is not None]
